@@ -24,6 +24,11 @@ pub enum Pos {
     /// type of the constant must not be taken from its first (narrower) item; two spellings of
     /// the constant's name, sorting before and after `s`
     SeqOfValue,
+    /// `T ::= Bounded {lo, hi}` with `Bounded {INTEGER:plo, INTEGER:phi} ::= INTEGER (plo..phi)`,
+    /// next to module-level values that are spelled like the dummy references (`plo INTEGER ::= 3`)
+    ParamInstance,
+    /// the same as a SEQUENCE component
+    ParamComponent,
     /// union / serial combination (random)
     Combo,
     /// the same as a SEQUENCE component (a different width-selection routine)
@@ -102,6 +107,8 @@ fn case_text(i: usize, c: &Case) -> String {
         Pos::Element | Pos::ComboElement => format!("T{i} ::= SEQUENCE OF INTEGER {k}"),
         Pos::RefUnconstrained => format!("T{i} ::= Unc {k}"),
         Pos::RefWide => format!("T{i} ::= Wide {k}"),
+        Pos::ParamInstance => format!("T{i} ::= Bounded {{ {}, {} }}", c.lo.unwrap(), c.hi.unwrap()),
+        Pos::ParamComponent => format!("T{i} ::= SEQUENCE {{ f Bounded {{ {}, {} }} }}", c.lo.unwrap(), c.hi.unwrap()),
         Pos::Value => format!("T{i} ::= INTEGER {k}\nv{i} T{i} ::= {}", c.x.unwrap()),
         Pos::Default => format!("T{i} ::= SEQUENCE {{ f INTEGER {k} DEFAULT {} }}", c.x.unwrap()),
         Pos::SeqOfValue => {
@@ -112,7 +119,7 @@ fn case_text(i: usize, c: &Case) -> String {
 }
 
 fn module_text(cases: &[Case]) -> String {
-    let mut s = format!("Int-Mod DEFINITIONS AUTOMATIC TAGS ::= BEGIN\nUnc ::= INTEGER\nWide ::= INTEGER (-{WIDE}..{WIDE})\nMid ::= INTEGER (0..300)\n");
+    let mut s = format!("Int-Mod DEFINITIONS AUTOMATIC TAGS ::= BEGIN\nUnc ::= INTEGER\nWide ::= INTEGER (-{WIDE}..{WIDE})\nMid ::= INTEGER (0..300)\nBounded {{INTEGER:plo, INTEGER:phi}} ::= INTEGER (plo..phi)\nplo INTEGER ::= 3\nphi INTEGER ::= 4\n");
     for (i, c) in cases.iter().enumerate() {
         s.push_str(&case_text(i, c));
         s.push('\n');
@@ -167,7 +174,7 @@ fn observe(m: &RModule, i: usize, c: &Case) -> Result<Obs, String> {
     let t = format!("T{i}");
     let mut o = Obs { types: vec![], literals: vec![] };
     match c.pos {
-        Pos::Assignment | Pos::Combo | Pos::Value | Pos::RefUnconstrained | Pos::RefWide => {
+        Pos::Assignment | Pos::Combo | Pos::Value | Pos::RefUnconstrained | Pos::RefWide | Pos::ParamInstance => {
             let tok = payload_int(m, &t, 0).ok_or_else(|| format!("{t}: no integer payload"))?;
             o.types.push((format!("{t} payload"), tok.clone()));
             if c.pos == Pos::Value {
@@ -186,7 +193,7 @@ fn observe(m: &RModule, i: usize, c: &Case) -> Result<Obs, String> {
                 }
             }
         }
-        Pos::Component | Pos::Default | Pos::ComboComponent => {
+        Pos::Component | Pos::Default | Pos::ComboComponent | Pos::ParamComponent => {
             let s = m.find_struct(&t).ok_or_else(|| format!("{t} missing"))?;
             let f = s.fields.first().ok_or("no field")?;
             let ty = f.ty.trim_start_matches("Option<").trim_end_matches('>').to_string();
@@ -488,6 +495,10 @@ pub fn run(tier: Tier, seed: u64, replay: Option<String>) -> i32 {
                     let fits_wide = lo.map_or(false, |l| l >= -WIDE) && hi.map_or(false, |h| h <= WIDE);
                     if fits_wide {
                         cases.push(Case { pos: Pos::RefWide, ..base.clone() });
+                    }
+                    if !ext && lo.is_some() && hi.is_some() {
+                        cases.push(Case { pos: Pos::ParamInstance, ..base.clone() });
+                        cases.push(Case { pos: Pos::ParamComponent, ..base.clone() });
                     }
                     // values: lower, upper, midpoint (finite ones)
                     let mut xs = vec![];
